@@ -6,6 +6,7 @@ import ast
 from .. import ppgrammar as G
 from ..model import AnalysisError, body_wo_doc, norm, walk_no_nested
 from . import _grid
+from . import _zinc
 
 META = {
     'level': 'other',
@@ -270,14 +271,21 @@ def _grid_site(ctx, m, gates):
     # version_given
     init = m.func('grid', 'Grid.__init__')
     texts = [norm(x) for x in walk_no_nested(init) if isinstance(x, ast.Assign)]
-    if 'version_given = version is not None' in texts and 'self._version_given = version_given' in texts:
+    from .. import match
+    vparam = [a.arg for a in init.args.args][1] if len(init.args.args) > 1 else 'version'
+    sc = match.Script(ctx, 'C10.D4', [init], F, '%s::Grid.__init__' % F, engine='E6')
+    sc.seed('version', vparam)
+    direct = any(norm(x) == 'self._version_given = %s is not None' % vparam for x in walk_no_nested(init) if isinstance(x, ast.Assign))
+    if direct:
         ctx.ob('C10.D4', 'the "version was given" flag is `version is not None`, set in the constructor', True,
                '%s:%d' % (F, init.lineno))
     else:
-        ctx.violation('C10.D4', '%s::Grid.__init__' % F, '; '.join(t for t in texts if 'version' in t),
-                      'Grid(version="2.0") upgrades silently / Grid() refuses 3.0 values',
-                      'the version_given flag is not `version is not None`', file=F, line=init.lineno, engine='E6')
-    if 'version = VER_2_0' in texts:
+        sc.need(['_R_given = _R_version is not None'], 'the "version was given" flag is `version is not None`',
+                'Grid(version="2.0") upgrades silently / Grid() refuses 3.0 values',
+                bad=['_R_given = _R_version is None', '_R_given = True', '_R_given = False', '_R_given = bool(_R_version)'])
+        sc.need(['self._version_given = _R_given'], 'the flag is stored in the constructor',
+                'Grid(version="2.0") upgrades silently / Grid() refuses 3.0 values')
+    if any(t.endswith(' = VER_2_0') for t in texts):
         ctx.ob('C10.D4', 'a grid without explicit version starts at 2.0', True, '%s:%d' % (F, init.lineno))
     writers = []
     for node in ast.walk(m.cls('grid', 'Grid')):
@@ -333,14 +341,26 @@ def _zinc_reader(ctx, m):
     # grammar selection by nearest version
     try:
         nm = m.func('zincparser', 'NearestMatch.__getitem__')
-        texts = [norm(x) for x in walk_no_nested(nm) if isinstance(x, ast.Assign)]
-        if 'nearest = Version.nearest(ver)' in texts and 'g = self._known_grammars[nearest]' in texts:
-            ctx.ob('C10.D3', 'the ZINC grammar is selected by Version.nearest(version)', True,
-                   '%s:%d' % (F, nm.lineno))
+        vparam = nm.args.args[1].arg
+        keys = []
+        for n in walk_no_nested(nm):
+            if isinstance(n, ast.Subscript) and norm(n.value) == 'self._known_grammars' and isinstance(n.ctx, ast.Load) \
+                    and norm(n.slice) != vparam:
+                keys.append(n)
+        if len(keys) != 1:
+            ctx.error('C10.D3', 'NearestMatch.__getitem__: %d fallback lookups in _known_grammars; cannot decide' % len(keys))
         else:
-            ctx.violation('C10.D3', '%s::NearestMatch.__getitem__' % F, '; '.join(texts),
-                          'ver:"2.5" is parsed with a grammar chosen differently from the gates of Grid and the writers',
-                          'grammar selection does not normalise with Version.nearest', file=F, line=nm.lineno, engine='E9')
+            src = _zinc.resolve_local(nm, norm(keys[0].slice), params=(vparam,))
+            if src == 'Version.nearest(%s)' % vparam:
+                ctx.ob('C10.D3', 'the ZINC grammar is selected by Version.nearest(version)', True, '%s:%d' % (F, nm.lineno))
+            elif 'nearest' in src:
+                ctx.error('C10.D3', 'NearestMatch.__getitem__ selects the grammar by `%s`; cannot decide' % src[:80])
+            else:
+                ctx.violation('C10.D3', '%s::NearestMatch.__getitem__' % F, norm(keys[0]),
+                              'ver:"2.5" is parsed with a grammar chosen differently from the gates of Grid and the writers '
+                              '(key `%s`)' % src[:80],
+                              'the grammar for an unofficial version is not selected by Version.nearest', file=F,
+                              line=keys[0].lineno, engine='E6')
     except AnalysisError as e:
         ctx.error('C10.D3', str(e))
     # the per-version tables map 2.0 -> *_2_0 and 3.0 -> *_3_0
